@@ -147,10 +147,8 @@ double complex _vnacommon_lu(complex double *a, int *row_index, int n)
 	 * Divide L terms by the pivot.
 	 */
 	if (j != n - 1) {
-	    double complex scale = 1.0 / A(j, j);
-
 	    for (int i = j + 1; i < n; ++i)
-		A(i, j) *= scale;
+		A(i, j) /= A(j, j);
 	}
     }
     return d;
